@@ -577,6 +577,10 @@ func Run(tier string, seed uint64, modelPath, repo string, out *res.Result) erro
 		"product: {auto,-8,0,8,50%} for margin-left/right x {auto|none,0,8,50%,150px} for width/min-width/max-width x cb in {100,101} (exhaustive); " +
 		"collapse: random margin lists, collapseMargin (model) vs largest positive + most negative (spec); " +
 		"non-trivial = at least 3 boxes; distinct by document text"
+	// fixed documents first: the minimal inputs of the recorded deviations and a plain example
+	if err := rn.corpus(); err != nil {
+		return err
+	}
 	// exhaustive product on a single div
 	if err := rn.product(); err != nil {
 		return err
@@ -609,6 +613,53 @@ func Run(tier string, seed uint64, modelPath, repo string, out *res.Result) erro
 		}
 	}
 	out.ModelCalls = m.N
+	return nil
+}
+
+func plain() style {
+	return style{sizing: "content", maxH: -1, ml: px(0), mr: px(0), mt: px(0), mb: px(0), pl: px(0), pr: px(0), pt: px(0), pb: px(0)}
+}
+
+func mk(f func(s *style), kids ...*node) *node {
+	s := plain()
+	if f != nil {
+		f(&s)
+	}
+	return &node{st: s, kids: kids}
+}
+
+// corpus: the documents of WR/C10/Examples.lean (negation witnesses of the Props file) and of
+// known_findings.d/C10.json, through the real layout on every run.
+func (rn *runner) corpus() error {
+	docs := [][]*node{
+		// solid example
+		{mk(func(s *style) { s.pt, s.mb = px(2), px(6) },
+			mk(func(s *style) { s.h, s.mt, s.mb = px(10), px(5), px(7) }),
+			mk(func(s *style) { s.h, s.mt, s.mb = px(10), px(-3), px(4) })),
+			mk(func(s *style) { s.h, s.mt = px(1), px(9) })},
+		// KF10-2 leading collapsing-through child
+		{mk(func(s *style) { s.mt = px(10) },
+			mk(func(s *style) { s.mt, s.mb = px(5), px(7) }),
+			mk(func(s *style) { s.mt, s.h = px(30), px(10) }))},
+		// KF10-3 nested collapsing-through boxes
+		{mk(func(s *style) { s.pt = px(1) },
+			mk(func(s *style) { s.mt = px(10) }, mk(nil)),
+			mk(func(s *style) { s.h = px(10) }))},
+		// KF10-4 empty box after a negative margin
+		{mk(func(s *style) { s.mb, s.h = px(-10), px(5) }), mk(nil)},
+		// KF10-1 over-constrained
+		{mk(func(s *style) { s.w, s.h = px(150), px(1) }), mk(func(s *style) { s.w, s.h, s.mr = px(50), px(1), px(7) })},
+	}
+	for i, kids := range docs {
+		root := mk(nil, mk(nil, kids...))
+		pageW := 400
+		if i == 4 {
+			pageW = 100
+		}
+		if err := rn.check(root, pageW, 0, "corpus", false); err != nil {
+			return err
+		}
+	}
 	return nil
 }
 
